@@ -472,7 +472,7 @@ fn rand_nonempty(r: &mut Rng) -> String {
 
 const SIZES: [usize; 22] = [0, 1, 2, 3, 4, 5, 6, 7, 8, 9, 10, 11, 12, 13, 100, 1023, 4095, 4096, 4097, 65535, 65536, 65537];
 const USERS: [&str; 7] = ["root", "alice", "bob", "www-data", "svc_1", "nobody", "ünï"];
-const COMPONENTS: [&str; 12] = ["usr", "bin", "etc", "lib64", "share", "a", "b.d", "with space", "ünï", "x-1.0", "opt", "_"];
+const COMPONENTS: [&str; 15] = ["usr", "bin", "etc", "lib64", "share", "a", "b.d", "with space", "ünï", "x-1.0", "opt", "_", ".config", "..data", "...",];
 
 pub struct GenOpts {
     pub max_files: usize,
@@ -550,7 +550,7 @@ pub fn gen_cfg(r: &mut Rng, o: &GenOpts) -> BuildCfg {
         Some(b) => b,
         None => r.bool(),
     };
-    cfg.source_date = if sd { Some([1_600_000_000u32, 1, 946_684_800, 1_700_000_000][r.usize(4)]) } else { None };
+    cfg.source_date = if sd { Some([1_600_000_000u32, 1, 946_684_800, 1_700_000_000, 0, 1_600_000_000][r.usize(6)]) } else { None };
     cfg.compression = rand_compression(r, o.all_levels);
 
     let nfiles = r.usize(o.max_files + 1);
@@ -572,7 +572,9 @@ pub fn gen_cfg(r: &mut Rng, o: &GenOpts) -> BuildCfg {
             _ => (None, None, size, if r.bool() { "noise" } else { "text" }),
         };
         let mtime_base = cfg.source_date.unwrap_or(1_600_000_000) as i64;
-        let mtime = match r.below(5) {
+        let mtime = match r.below(6) {
+            // a time in the future of this host's clock (clock skew, far-future dates)
+            5 => [4_000_000_000i64, 2_000_000_000, (1i64 << 32) - 1][r.usize(3)],
             0 => mtime_base - 1 - r.below(1_000_000) as i64,
             1 => mtime_base + 1 + r.below(1_000_000) as i64,
             2 => mtime_base,
